@@ -96,6 +96,8 @@ def unit_is_diagonal(kind, timeout_ms=20000):
             return Dense(x.rows, x.cols, x.flat, x.lo_col, rounded=True)
 
         def np_abs(e, x):
+            if isinstance(x, T):
+                return CT("abs", x)
             if not isinstance(x, Dense) or x.one_d is not None:
                 raise Unsupported("np.abs of something else")
             r = Dense(x.rows, x.cols, x.flat, x.lo_col)
@@ -103,6 +105,8 @@ def unit_is_diagonal(kind, timeout_ms=20000):
             return r
 
         def np_any(e, x):
+            if isinstance(x, T):
+                return np_any_sparse(e, x)
             if not (isinstance(x, Dense) and x.rounded and x.one_d is None):
                 raise Unsupported("np.any of something else")
             log["view"] = x
@@ -114,6 +118,26 @@ def unit_is_diagonal(kind, timeout_ms=20000):
             def m_isinstance(s, e, c):
                 return False
 
+        class SpCoo(Model):
+            """coo form of the (duplicate-summed) sparse matrix: parallel arrays data / row / col"""
+            def m_getattr(s, e, name):
+                if name in ("data", "row", "col"):
+                    return CT("coo." + name)
+                raise Unsupported(f"coo_array.{name}")
+
+        ROW_EQ_COL = z3.Bool("row_index_equals_column_index(elementwise)")
+
+        class CT(T):
+            def m_getitem(s, e, key):
+                if isinstance(key, SB) and z3.eq(z3.simplify(key.e), z3.simplify(z3.Not(ROW_EQ_COL))):
+                    return CT("[]", s, T("NotEq", T("coo.row"), T("coo.col")))
+                return CT("[]", s, key)
+
+            def m_binop(s, e, op, other, reflected):
+                if isinstance(op, ast.Eq) and {s.head, getattr(other, "head", None)} == {"coo.row", "coo.col"}:
+                    return SB(ROW_EQ_COL)          # the element-wise comparison of the two index arrays (kept symbolic; `!=` is its negation)
+                return super().m_binop(e, op, other, reflected)
+
         class Dia(Model):
             def m_getattr(s, e, name):
                 if name == "offsets":
@@ -124,6 +148,16 @@ def unit_is_diagonal(kind, timeout_ms=20000):
             def m_iter(s, e):
                 raise Unsupported("iteration")
         off_nonmain = eng.fresh("a_diagonal_other_than_the_main_one_is_stored", "bool")
+
+        big_off = eng.fresh("some_stored_off_diagonal_entry_exceeds_atol", "bool")
+
+        def np_any_sparse(e, x):
+            # np.any(np.abs(data[row != col]) > atol)
+            ok = (isinstance(x, T) and x.head == "Gt" and x.args[1] is ATOL and isinstance(x.args[0], T) and x.args[0].head == "abs"
+                  and repr(x.args[0].args[0]) in (repr(T("[]", T("coo.data"), T("Not", T("Eq", T("coo.row"), T("coo.col"))))), repr(T("[]", T("coo.data"), T("NotEq", T("coo.row"), T("coo.col"))))))
+            log["sparse_test"] = ok
+            log["sparse_expr"] = repr(x)
+            return SB(big_off)
 
         def py_any(e, x):
             if isinstance(x, Offsets):
@@ -145,7 +179,9 @@ def unit_is_diagonal(kind, timeout_ms=20000):
                             "np": Namespace("np", {"ma": Namespace("ma", {"masked": MASKED}), "ndarray": TypeObj("ndarray"), "round": Builtin("round", np_round), "abs": Builtin("abs", np_abs), "any": Builtin("any", np_any),
                                                    "log10": Builtin("log10", lambda e, x: T("log10", x))}),
                             "sympy": Namespace("sympy", {"MatrixBase": TypeObj("MatrixBase")}),
-                            "sparse": Namespace("sparse", {"issparse": Builtin("issparse", lambda e, x: isinstance(x, Sp)), "dia_array": Builtin("dia_array", lambda e, x: Dia())}),
+                            "sparse": Namespace("sparse", {"issparse": Builtin("issparse", lambda e, x: isinstance(x, Sp)), "dia_array": Builtin("dia_array", lambda e, x: Dia()),
+                                                           "csr_array": Builtin("csr_array", lambda e, x: T("csr-with-duplicates-summed", x) if isinstance(x, Sp) else T("csr?", x)),
+                                                           "coo_array": Builtin("coo_array", lambda e, x: (log.__setitem__("coo_of", x), SpCoo())[1])}),
                             "any": Builtin("any", py_any), "int": Builtin("int", lambda e, x: T("int", x)), "type": Builtin("type", lambda e, x: T("type"))})
         ATOL = T("atol")
         try:
@@ -160,6 +196,12 @@ def unit_is_diagonal(kind, timeout_ms=20000):
         if kind == "sympy":
             return eng.oblige("sympy:answer-of-Matrix.is_diagonal", rz == sym_diag)
         if kind == "sparse":
+            if "sparse_test" in log:
+                # tolerance-aware form: no stored off-diagonal entry (after summing duplicates) exceeds atol
+                eng.oblige("sparse:decided-by-the-off-diagonal-stored-entries-compared-with-atol", z3.BoolVal(bool(log["sparse_test"])), detail="np.any(np.abs(data[row != col]) > atol) on the coo form; got " + log.get("sparse_expr", "")[:200])
+                src = log.get("coo_of")
+                eng.oblige("sparse:duplicates-summed-before-the-test", z3.BoolVal(isinstance(src, T) and src.head == "csr-with-duplicates-summed"), detail=repr(src))
+                return eng.oblige("sparse:diagonal-iff-no-off-diagonal-entry-exceeds-atol", rz == z3.Not(big_off))
             return eng.oblige("sparse:diagonal-iff-only-the-main-diagonal-is-stored", rz == z3.Not(off_nonmain))
         # dense
         v = log.get("view")
